@@ -32,3 +32,4 @@ func verifTrackStart(name string)
 func verifTrackStop()
 func verifMapReverse(on bool)
 func refParent(l, r Hash) Hash
+func verifAssertKF(c bool, id string, tag string, pred bool)
